@@ -142,7 +142,7 @@ pub mod shims {
                     && structs::opt_text(raw_proof) == structs::raw_proof_of(c, k), //@C05.challenge_hooks_get_the_file_name_and_the_proofs_of_the_challenge,C10.challenge_hooks_get_the_file_name_and_the_proofs_of_the_challenge
             ensures
                 final(w).cur_auth == old(w).cur_auth, final(w).downloaded == old(w).downloaded, final(w).key_written == old(w).key_written,
-                final(w).cert_written == old(w).cert_written, final(w).pair_installed == old(w).pair_installed, final(w).disk_key == old(w).disk_key,
+                final(w).cert_written == old(w).cert_written, final(w).pair_installed == old(w).pair_installed, final(w).settled == old(w).settled, final(w).disk_key == old(w).disk_key,
                 match r {
                     Ok(t) => final(w).hooks_ok && !t.0.is_clean_hook
                         && final(w).pending_clean == old(w).pending_clean.push(clean_view((ChallengeHookData { is_clean_hook: true, ..t.0 }, t.1))),
@@ -155,7 +155,7 @@ pub mod shims {
             requires old(w).pending_clean.len() > 0 && old(w).pending_clean[0] == clean_view((*data, hook_type)), //@C10.clean_hooks_get_the_recorded_data_with_is_clean_hook_set
             ensures final(w).pending_clean == old(w).pending_clean.skip(1),
                 final(w).cur_auth == old(w).cur_auth, final(w).hooks_ok == old(w).hooks_ok, final(w).downloaded == old(w).downloaded,
-                final(w).key_written == old(w).key_written, final(w).cert_written == old(w).cert_written, final(w).pair_installed == old(w).pair_installed, final(w).disk_key == old(w).disk_key,
+                final(w).key_written == old(w).key_written, final(w).cert_written == old(w).cert_written, final(w).pair_installed == old(w).pair_installed, final(w).settled == old(w).settled, final(w).disk_key == old(w).disk_key,
         { unimplemented!() }
     }
     pub mod structs {
@@ -299,7 +299,7 @@ pub mod shims {
                 // C03: replacing the installed key is only harmless once the certificate that goes with the new key is in hand
                 c.kp_reuse || !old(w).pair_installed, //@C03.new_key_is_written_only_once_its_certificate_is_in_hand
             ensures final(w).cur_auth == old(w).cur_auth, final(w).hooks_ok == old(w).hooks_ok, final(w).pending_clean == old(w).pending_clean,
-                final(w).downloaded == old(w).downloaded, final(w).cert_written == old(w).cert_written, final(w).pair_installed == old(w).pair_installed,
+                final(w).downloaded == old(w).downloaded, final(w).cert_written == old(w).cert_written, final(w).pair_installed == old(w).pair_installed, final(w).settled == old(w).settled,
                 // the key handed back is the key in the key file (read from it, or generated and stored)
                 r matches Ok(k) ==> final(w).disk_key == Some(k.id@),
         { unimplemented!() }
@@ -318,7 +318,7 @@ pub mod shims {
                 validated_against_key_file(data@), //@C03.certificate_is_validated_against_the_key_before_it_is_written
             ensures final(w).cert_written == (old(w).cert_written || r is Ok),
                 final(w).cur_auth == old(w).cur_auth, final(w).hooks_ok == old(w).hooks_ok, final(w).pending_clean == old(w).pending_clean,
-                final(w).downloaded == old(w).downloaded, final(w).key_written == old(w).key_written, final(w).pair_installed == old(w).pair_installed, final(w).disk_key == old(w).disk_key,
+                final(w).downloaded == old(w).downloaded, final(w).key_written == old(w).key_written, final(w).pair_installed == old(w).pair_installed, final(w).settled == old(w).settled, final(w).disk_key == old(w).disk_key,
         { unimplemented!() }
         }
     }
@@ -339,19 +339,23 @@ pub mod shims {
         // the authorization just fetched becomes the one being worked on
         #[verifier::external_body]
         pub fn get_authorization<F: Fn(&str, &str) -> Result<String, Error>>(e: &mut Endpoint, d: &F, u: &str, Tracked(w): Tracked<&mut World>) -> (r: Result<Authorization, HttpError>)
-            ensures same_but_auth(*final(w), *old(w)), r matches Ok(a) ==> final(w).cur_auth == Some(auth_view(a)) { unimplemented!() }
+            ensures same_but_auth(*final(w), *old(w)), r matches Ok(a) ==> final(w).cur_auth == Some(auth_view(a)),
+                // an authorization the CA already reports valid is settled as it is fetched
+                final(w).settled == old(w).settled + (if r matches Ok(a) && a.status is Valid { 1int } else { 0int }) { unimplemented!() }
         // "the challenge is ready": only after the challenge hooks have succeeded
         #[verifier::external_body]
         pub fn post_jose_no_response<F: Fn(&str, &str) -> Result<String, Error>>(e: &mut Endpoint, d: &F, u: &str, Tracked(w): Tracked<&mut World>) -> (r: Result<(), HttpError>)
             requires old(w).hooks_ok, //@C05.challenge_is_announced_only_after_its_hooks_succeeded
             ensures !final(w).hooks_ok, final(w).cur_auth == old(w).cur_auth, final(w).pending_clean == old(w).pending_clean,
                 final(w).downloaded == old(w).downloaded, final(w).key_written == old(w).key_written, final(w).cert_written == old(w).cert_written,
-                final(w).pair_installed == old(w).pair_installed, final(w).disk_key == old(w).disk_key,
+                final(w).pair_installed == old(w).pair_installed, final(w).settled == old(w).settled, final(w).disk_key == old(w).disk_key,
         { unimplemented!() }
         #[verifier::external_body]
         pub fn pool_authorization<F: Fn(&str, &str) -> Result<String, Error>, S: Fn(&Authorization) -> bool>(e: &mut Endpoint, d: &F, b: &S, u: &str, Tracked(w): Tracked<&mut World>) -> (r: Result<Authorization, HttpError>)
             requires forall|a: &Authorization| b.requires((a,))
-            ensures *final(w) == *old(w), r matches Ok(a) ==> b.ensures((&a,), true) { unimplemented!() }
+            // (unit http: Ok only with an authorization on which the caller's predicate holds) - the authorization polled is settled then
+            ensures *final(w) == (World { settled: old(w).settled + (if r is Ok { 1int } else { 0int }), ..*old(w) }),
+                r matches Ok(a) ==> b.ensures((&a,), true) { unimplemented!() }
         #[verifier::external_body]
         pub fn pool_order<F: Fn(&str, &str) -> Result<String, Error>, S: Fn(&Order) -> bool>(e: &mut Endpoint, d: &F, b: &S, u: &str, Tracked(w): Tracked<&mut World>) -> (r: Result<Order, HttpError>)
             requires forall|o: &Order| b.requires((o,))
@@ -365,7 +369,7 @@ pub mod shims {
         pub fn get_certificate<F: Fn(&str, &str) -> Result<String, Error>>(e: &mut Endpoint, d: &F, u: &str, Tracked(w): Tracked<&mut World>) -> (r: Result<String, HttpError>)
             requires old(w).cert_url == Some(u@), //@C03.the_certificate_is_downloaded_from_the_url_the_order_gives,C02.the_certificate_is_downloaded_from_the_url_the_order_gives
             ensures final(w).cur_auth == old(w).cur_auth, final(w).hooks_ok == old(w).hooks_ok, final(w).pending_clean == old(w).pending_clean,
-                final(w).key_written == old(w).key_written, final(w).cert_written == old(w).cert_written, final(w).pair_installed == old(w).pair_installed, final(w).disk_key == old(w).disk_key,
+                final(w).key_written == old(w).key_written, final(w).cert_written == old(w).cert_written, final(w).pair_installed == old(w).pair_installed, final(w).settled == old(w).settled, final(w).disk_key == old(w).disk_key,
                 match r { Ok(s) => final(w).downloaded == Some(s@), Err(_) => final(w).downloaded == old(w).downloaded },
         { unimplemented!() }
         }
